@@ -1086,6 +1086,10 @@ registry! {
     MiscB: Misc<(u64, u64), Box<[u32]>>;
     MiscC: Misc<Z32, Option<ZeroS>>;
     MiscD: Misc<Vec<String>, EnumZ>;
+    VecTupleS: Vec<TupleS<Vec<u8>>>;
+    OptDeep: Option<DeepS<Vec<u8>, String>> { variants = |r, s| vec![None, Some(DeepS::gen(r, s))] };
+    ArrDeep: [TupleS<String>; 2];
+    BoxDeep: Box<[TupleS<Vec<u32>>]>;
     HolderD: Holder<Z32>;
     HolderA: Holder<Vec<u8>>;
     HolderB: Holder<Vec<u64>>;
